@@ -223,7 +223,7 @@ _Q_WIN = ("quant-window", "apalache/QuantWindow.tla", [["--init=Init", "--inv=Wi
 PROPS["C09"]["apalache"] = [_Q_WIN]
 PROPS["C19"]["apalache"] = [_Q_WIN]
 # the memoryless rule in real units over three octaves, scale and inputs symbolic (13 minutes: thorough tier)
-PROPS["C08"]["apalache"] = [("quant-rule", "apalache/QuantRule.tla", [["--init=Init", "--inv=Inv", "--length=0"]], T)]
+PROPS["C08"]["apalache"] = [("quant-rule", "apalache/QuantRule.tla", [["--init=InitAny", "--inv=Defined", "--length=0"], ["--init=Init", "--inv=Inv", "--length=0"]], T)]
 PROPS["C04"]["apalache"] = [_MIDI_IND]
 PROPS["C05"]["apalache"] = [_MIDI_IND]
 
